@@ -230,6 +230,25 @@ def main(run: Run):
     run.functions["amaranth_soc.csr.reg.Register.__init__"] = "bounded (runtime contract: width sum, access rejection)"
     run.functions["amaranth_soc.csr.reg.FieldActionMap.flatten / FieldActionArray.flatten"] = "bounded (order compared with an independent walk of the input collection)"
     run_configs(run, __name__, cfgs, must_accept=True)
+    # L1: the packing performed by the real Register.elaborate(), for any number of fields of any widths (pyvc, recording stubs)
+    from ..pyvc.driver import discharge_all
+    from ..pyvc.engine import Unsupported
+    from ..common import BASE_ASSUMPTIONS_L1
+    try:
+        from contracts import register as creg
+        fv = creg.verify_register_elaborate()
+        run.functions["amaranth_soc.csr.reg.Register.elaborate [statements issued]"] = \
+            f"proved ({fv.paths} paths, {len(fv.obs)} obligations): field k is wired to bits [sum of earlier widths, + its width) for ANY field list"
+        run.require("csr.reg.Register.elaborate::readable-field-wired", "csr.reg.Register.elaborate::writable-field-wired",
+                    "csr.reg.Register.elaborate::side-condition:invariant-preserved:field_start==prefix-sum(k+1)[fall]")
+        run.assumptions += BASE_ASSUMPTIONS_L1 + [
+            "Register.elaborate contract: Amaranth's Module / signals are recording stubs (which statements are issued, under which "
+            "condition, with which slice bounds); what an assignment to a slice means in hardware is the per-configuration part; the "
+            "iteration `for field_path, field in self` yields every field once in declaration order (flatten(): bounded clause)"]
+        discharge_all(run, fv.obs, timeout_ms=20000)
+    except Unsupported as e:
+        run.functions["amaranth_soc.csr.reg.Register.elaborate [statements issued]"] = f"unsupported: {e} (the per-configuration clauses decide)"
+        run.bounded_notes.append(f"Register.elaborate: outside the pyvc subset on this tree ({e}); per-configuration clauses decide")
     return run.finish(
         explanation="Register.elaborate contract clauses (packing, slices, strobe fan-out) discharged as QF_BV obligations "
                     "over the NIR netlist for all port values; constructor clauses evaluated natively per configuration. "
